@@ -1,7 +1,8 @@
 From Coq Require Import ZArith List Bool Lia. From MS Require Import PyBase Bits BufferAbs Schc SchcSpec. Import ListNotations. Open Scope Z_scope.
 (* SchcCodec.v -- the compressor produces the RFC 8724 layout (C02), the decompressor inverts it
    field by field (C03), and the size prefix of section 7.4.2 is encoded / decoded as specified (C17). *)
-From MS Require Import ByteFacts.
+From MS Require Import ByteFacts PySort.
+From Coq Require Import Permutation.
 
 (* ---- lists, slices ---------------------------------------------------------------------------- *)
 Lemma firstn_app_len {A} (a b : list A) n : n = length a -> firstn n (a ++ b) = a.
@@ -391,18 +392,68 @@ Proof.
   intros H. rewrite map_app, concat_app, map_snd_combine by exact H. cbn. now rewrite app_nil_r.
 Qed.
 
-Theorem decompress_layout ct r d vs rs payload :
+(* ---- list.sort on the compute entries -------------------------------------------------------------- *)
+Lemma ce_sorted_no_descent l : ce_sorted l = no_descent ce_lt l.
+Proof.
+  induction l as [|e1 [|e2 l] IH]; try reflexivity.
+  change (ce_sorted (e1 :: e2 :: l)) with (negb (ce_cmp e2 e1 <? 0) && ce_sorted (e2 :: l)).
+  rewrite IH. reflexivity.
+Qed.
+
+(* an already sorted list is left alone *)
+Theorem py_sort_sorted ces : ce_sorted ces = true -> (length ces < 64)%nat -> py_sort_ces ces = Some ces.
+Proof. rewrite ce_sorted_no_descent. apply py_sort_no_descent. Qed.
+
+(* the sort only reorders *)
+Theorem py_sort_ces_perm ces l : py_sort_ces ces = Some l -> Permutation ces l.
+Proof. apply py_sort_perm. Qed.
+
+Theorem py_sort_ces_length ces l : py_sort_ces ces = Some l -> length l = length ces.
+Proof. apply py_sort_length. Qed.
+
+(* fewer than 64 entries are always sorted, 64 or more never *)
+Theorem py_sort_ces_total ces : (length ces < 64)%nat -> exists l, py_sort_ces ces = Some l.
+Proof. apply py_sort_total. Qed.
+
+Theorem py_sort_ces_none ces : (64 <= length ces)%nat -> py_sort_ces ces = None.
+Proof. apply py_sort_none. Qed.
+
+(* a rule has at most one compute entry per field *)
+Lemma centries_length_le ct rfs : forall pos, (length (centries_of ct pos rfs) <= length rfs)%nat.
+Proof.
+  induction rfs as [|rf rfs IH]; intros pos; [apply Nat.le_refl|].
+  rewrite centries_of_cons, app_length. specialize (IH (pos + 1)). cbn [length].
+  destruct (ce_of ct pos rf); cbn [length]; lia.
+Qed.
+
+(* the layout of decompress with the compute entries in any order list.sort produces *)
+Theorem decompress_layout_sort ct r d vs rs payload ces :
   let rfs := select_fds d (rule_fds r) in
   length vs = length rfs -> forallb2 (fun rf v => wf_field ct rf v) rfs vs = true ->
-  spec_residues vs rfs = Some rs -> ce_sorted (centries_of ct 0 rfs) = true ->
+  spec_residues vs rfs = Some rs -> py_sort_ces (centries_of ct 0 rfs) = Some ces ->
   decompress ct (rule_id r ++ rs ++ payload) r d =
-    (do fs' <- run_computes (centries_of ct 0 rfs) (combine (map r_id rfs) vs ++ [(payload_fid, payload)]) ;;
+    (do fs' <- run_computes ces (combine (map r_id rfs) vs ++ [(payload_fid, payload)]) ;;
      Ok (concat (map snd fs'))).
 Proof.
   intros rfs Hlen Hwf Hsp Hso. unfold decompress. cbv zeta. fold rfs.
   rewrite py_slice_app_from.
   rewrite (decompress_fields_spec ct rfs vs 0 rs payload Hlen Hwf Hsp). cbn [bind].
   rewrite Hso. reflexivity.
+Qed.
+
+(* ADDED premise (the model of list.sort covers fewer than 64 entries): the bound on the number of
+   compute entries; it follows from length rfs < 64 (centries_length_le) *)
+Theorem decompress_layout ct r d vs rs payload :
+  let rfs := select_fds d (rule_fds r) in
+  length vs = length rfs -> forallb2 (fun rf v => wf_field ct rf v) rfs vs = true ->
+  spec_residues vs rfs = Some rs -> ce_sorted (centries_of ct 0 rfs) = true ->
+  (length (centries_of ct 0 rfs) < 64)%nat ->
+  decompress ct (rule_id r ++ rs ++ payload) r d =
+    (do fs' <- run_computes (centries_of ct 0 rfs) (combine (map r_id rfs) vs ++ [(payload_fid, payload)]) ;;
+     Ok (concat (map snd fs'))).
+Proof.
+  intros rfs Hlen Hwf Hsp Hso Hn.
+  exact (decompress_layout_sort ct r d vs rs payload _ Hlen Hwf Hsp (py_sort_sorted _ Hso Hn)).
 Qed.
 
 Lemma centries_nocompute ct rfs : forall pos,
@@ -423,7 +474,7 @@ Theorem decompress_layout_nocompute ct r d vs rs payload :
 Proof.
   intros rfs Hlen Hwf Hnc Hsp.
   pose proof (centries_nocompute ct rfs 0 Hnc) as Hce.
-  rewrite (decompress_layout ct r d vs rs payload Hlen Hwf Hsp) by (fold rfs; now rewrite Hce).
+  rewrite (decompress_layout ct r d vs rs payload Hlen Hwf Hsp) by (fold rfs; rewrite Hce; first [reflexivity|cbn; lia]).
   fold rfs. rewrite Hce. cbn [run_computes bind]. f_equal.
   apply concat_fields. now rewrite map_length.
 Qed.
